@@ -29,12 +29,300 @@ theorem eval_own_seven (board : List Card) (p : Combo) (hb : board.length = 5) (
     (hbv : ∀ c ∈ board, c.valid = true) (hp : p.fst.valid = true ∧ p.snd.valid = true ∧ p.fst ≠ p.snd)
     (hc : collides board p = false) :
     eval7 (sevenCards p board) = .ok (best ((sevenCards p board).map C01.toSpec)) := by
-  sorry
+  unfold collides at hc
+  simp only [Bool.or_eq_false_iff, List.contains_eq_mem, decide_eq_false_iff_not] at hc
+  apply C01.C01_eval
+  · simp [sevenCards, hb]
+  · simp only [sevenCards, List.nodup_cons, List.mem_cons]
+    exact ⟨fun h => h.elim hp.2.2 hc.1, hc.2, hnd⟩
+  · intro c hcm
+    simp only [sevenCards, List.mem_cons] at hcm
+    rcases hcm with rfl | rfl | h
+    · exact hp.1
+    · exact hp.2.1
+    · exact hbv c h
+
+/-- every evaluation fits the `u16` sentinel: `best ≤ 7463 ≤ u16::MAX` -/
+theorem best_le (X : List (Nat × Nat)) : best X ≤ 65535 := by
+  have : best X ≤ 7463 := Lemmas.foldl_min_le_init _ _
+  omega
+
+/-- invariant of the single pass: the players so far carry the evaluation of their own seven cards and
+are not yet flagged; `strongest` is a lower bound of their indexes, attained as soon as there is a
+player (it is the `u16::MAX` sentinel before); `winners` holds exactly the positions attaining it -/
+structure Inv (board : List Card) (acc : SdAcc) : Prop where
+  evals : ∀ pl ∈ acc.players, eval7 (sevenCards pl.hole board) = .ok pl.hand
+            ∧ pl.hand = best ((sevenCards pl.hole board).map C01.toSpec) ∧ pl.win = false
+  low : ∀ pl ∈ acc.players, acc.strongest ≤ pl.hand
+  att : acc.players ≠ [] → ∃ pl ∈ acc.players, pl.hand = acc.strongest
+  le : acc.strongest ≤ 65535
+  init : acc.players = [] → acc.strongest = 65535
+  win : ∀ j, j ∈ acc.winners ↔ ∃ pl, acc.players[j]? = some pl ∧ pl.hand = acc.strongest
+
+/-- one iteration on a non-colliding player: no panic, the invariant is kept, the player is appended -/
+theorem sdStep_ok (board : List Card) (acc : SdAcc) (p : Combo) (hI : Inv board acc)
+    (hb : board.length = 5) (hnd : board.Nodup)
+    (hbv : ∀ c ∈ board, c.valid = true) (hp : p.fst.valid = true ∧ p.snd.valid = true ∧ p.fst ≠ p.snd)
+    (hc : collides board p = false) :
+    ∃ acc', sdStep board acc.players.length acc p = .ok (some acc') ∧ Inv board acc'
+      ∧ acc'.players.map (·.hole) = acc.players.map (·.hole) ++ [p] := by
+  have he := eval_own_seven board p hb hnd hbv hp hc
+  have hle := best_le ((sevenCards p board).map C01.toSpec)
+  generalize hpi : best ((sevenCards p board).map C01.toSpec) = pi at he hle
+  unfold sdStep
+  rw [show (board.contains p.fst || board.contains p.snd) = false from hc]
+  simp only [he, Bool.false_eq_true, if_false]
+  obtain ⟨pls, s, w⟩ := acc
+  obtain ⟨ev, low, att, le, init, win⟩ := hI
+  simp only at ev low att le init win ⊢
+  have hev : ∀ pl ∈ pls ++ [{ hole := p, hand := pi, win := false }],
+      eval7 (sevenCards pl.hole board) = .ok pl.hand
+            ∧ pl.hand = best ((sevenCards pl.hole board).map C01.toSpec) ∧ pl.win = false := by
+    intro pl hpl
+    rcases List.mem_append.mp hpl with h | h
+    · exact ev pl h
+    · simp only [List.mem_singleton] at h
+      subst h
+      exact ⟨he, hpi.symm, rfl⟩
+  by_cases h1 : pi ≤ s
+  · by_cases h2 : pi < s
+    · simp only [h1, h2, if_true]
+      refine ⟨_, rfl, ⟨hev, ?_, ?_, hle, by simp, ?_⟩, by simp⟩
+      · intro pl hpl
+        rcases List.mem_append.mp hpl with h | h
+        · have := low pl h; simp only; omega
+        · simp only [List.mem_singleton] at h
+          subst h; simp
+      · intro _
+        exact ⟨_, List.mem_append_right _ (List.mem_singleton.mpr rfl), rfl⟩
+      · intro j
+        simp only [List.mem_singleton]
+        constructor
+        · rintro rfl
+          exact ⟨⟨p, pi, false⟩, by simp, rfl⟩
+        · rintro ⟨pl, hj, hh⟩
+          rcases Nat.lt_trichotomy j pls.length with hlt | heq | hgt
+          · rw [List.getElem?_append_left hlt] at hj
+            have := low pl (List.mem_of_getElem? hj)
+            omega
+          · exact heq
+          · rw [List.getElem?_eq_none (by simp; omega)] at hj
+            cases hj
+    · have hs : pi = s := by omega
+      subst hs
+      simp only [Nat.le_refl, Nat.lt_irrefl, if_true, if_false]
+      refine ⟨_, rfl, ⟨hev, ?_, ?_, hle, by simp, ?_⟩, by simp⟩
+      · intro pl hpl
+        rcases List.mem_append.mp hpl with h | h
+        · exact low pl h
+        · simp only [List.mem_singleton] at h
+          subst h; simp
+      · intro _
+        exact ⟨_, List.mem_append_right _ (List.mem_singleton.mpr rfl), rfl⟩
+      · intro j
+        simp only [List.mem_cons, win]
+        constructor
+        · rintro (rfl | ⟨pl, hj, hh⟩)
+          · exact ⟨⟨p, pi, false⟩, by simp, rfl⟩
+          · exact ⟨pl, by rw [List.getElem?_append_left (List.getElem?_eq_some_iff.mp hj).1]; exact hj, hh⟩
+        · rintro ⟨pl, hj, hh⟩
+          rcases Nat.lt_trichotomy j pls.length with hlt | heq | hgt
+          · rw [List.getElem?_append_left hlt] at hj
+            exact Or.inr ⟨pl, hj, hh⟩
+          · exact Or.inl heq
+          · rw [List.getElem?_eq_none (by simp; omega)] at hj
+            cases hj
+  · simp only [h1, if_false]
+    refine ⟨_, rfl, ⟨hev, ?_, ?_, le, by simp, ?_⟩, by simp⟩
+    · intro pl hpl
+      rcases List.mem_append.mp hpl with h | h
+      · exact low pl h
+      · simp only [List.mem_singleton] at h
+        subst h; simp only; omega
+    · intro _
+      have hne : pls ≠ [] := by
+        intro h0
+        have := init h0
+        omega
+      obtain ⟨pl, hm, hh⟩ := att hne
+      exact ⟨pl, List.mem_append_left _ hm, hh⟩
+    · intro j
+      simp only [win]
+      constructor
+      · rintro ⟨pl, hj, hh⟩
+        exact ⟨pl, by rw [List.getElem?_append_left (List.getElem?_eq_some_iff.mp hj).1]; exact hj, hh⟩
+      · rintro ⟨pl, hj, hh⟩
+        rcases Nat.lt_trichotomy j pls.length with hlt | heq | hgt
+        · rw [List.getElem?_append_left hlt] at hj
+          exact ⟨pl, hj, hh⟩
+        · subst heq
+          simp at hj
+          subst hj
+          simp only at hh
+          omega
+        · rw [List.getElem?_eq_none (by simp; omega)] at hj
+          cases hj
+
+/-- the loop on players none of whom collides -/
+theorem sdLoop_ok (board : List Card) (hb : board.length = 5) (hnd : board.Nodup)
+    (hbv : ∀ c ∈ board, c.valid = true) (rest : List Combo) :
+    ∀ (i : Nat) (acc : SdAcc), Inv board acc → i = acc.players.length →
+      (∀ p ∈ rest, p.fst.valid = true ∧ p.snd.valid = true ∧ p.fst ≠ p.snd) →
+      (∀ p ∈ rest, collides board p = false) →
+      ∃ acc', sdLoop board rest i acc = .ok (some acc') ∧ Inv board acc'
+        ∧ acc'.players.map (·.hole) = acc.players.map (·.hole) ++ rest := by
+  induction rest with
+  | nil => intro i acc hI _ _ _; exact ⟨acc, rfl, hI, by simp⟩
+  | cons p rest ih =>
+    intro i acc hI hi hw hno
+    subst hi
+    obtain ⟨acc1, h1, hI1, hm1⟩ :=
+      sdStep_ok board acc p hI hb hnd hbv (hw p (by simp)) (hno p (by simp))
+    have hlen : acc1.players.length = acc.players.length + 1 := by
+      have := congrArg List.length hm1
+      simpa using this
+    obtain ⟨acc2, h2, hI2, hm2⟩ := ih (acc.players.length + 1) acc1 hI1 hlen.symm
+      (fun q hq => hw q (List.mem_cons_of_mem _ hq)) (fun q hq => hno q (List.mem_cons_of_mem _ hq))
+    refine ⟨acc2, ?_, hI2, ?_⟩
+    · simp only [sdLoop, h1]; exact h2
+    · rw [hm2, hm1]; simp
+
+/-- the loop on players one of whom collides: the early `return None` -/
+theorem sdLoop_none (board : List Card) (hb : board.length = 5) (hnd : board.Nodup)
+    (hbv : ∀ c ∈ board, c.valid = true) (rest : List Combo) :
+    ∀ (i : Nat) (acc : SdAcc), Inv board acc → i = acc.players.length →
+      (∀ p ∈ rest, p.fst.valid = true ∧ p.snd.valid = true ∧ p.fst ≠ p.snd) →
+      (∃ p ∈ rest, collides board p = true) →
+      sdLoop board rest i acc = .ok none := by
+  induction rest with
+  | nil => intro i acc _ _ _ h; obtain ⟨p, hp, _⟩ := h; cases hp
+  | cons p rest ih =>
+    intro i acc hI hi hw hex
+    subst hi
+    cases hcp : collides board p with
+    | true =>
+      have : sdStep board acc.players.length acc p = .ok none := by
+        unfold sdStep
+        rw [show (board.contains p.fst || board.contains p.snd) = true from hcp]
+        simp
+      simp only [sdLoop, this]
+    | false =>
+      obtain ⟨acc1, h1, hI1, hm1⟩ := sdStep_ok board acc p hI hb hnd hbv (hw p (by simp)) hcp
+      have hlen : acc1.players.length = acc.players.length + 1 := by
+        have := congrArg List.length hm1
+        simpa using this
+      have hex' : ∃ q ∈ rest, collides board q = true := by
+        obtain ⟨q, hq, hcq⟩ := hex
+        rcases List.mem_cons.mp hq with rfl | hq
+        · rw [hcp] at hcq; cases hcq
+        · exact ⟨q, hq, hcq⟩
+      simp only [sdLoop, h1]
+      exact ih (acc.players.length + 1) acc1 hI1 hlen.symm
+        (fun q hq => hw q (List.mem_cons_of_mem _ hq)) hex'
+
+theorem inv_init (board : List Card) : Inv board { players := [], strongest := 65535, winners := [] } :=
+  ⟨by simp, by simp, by simp, by simp, by simp, by simp⟩
+
+/-- the flag pass, position by position -/
+theorem flag_getElem? (players : List ShowdownPlayer) (winners : List Nat) (j : Nat) :
+    (flagWinners players winners)[j]? =
+      players[j]?.map (fun pl => if winners.contains j then { pl with win := true } else pl) := by
+  unfold flagWinners
+  simp only [List.getElem?_map, List.getElem?_zipIdx, Option.map_map, Nat.zero_add]
+  rfl
+
+theorem flag_length (players : List ShowdownPlayer) (winners : List Nat) :
+    (flagWinners players winners).length = players.length := by
+  simp [flagWinners]
+
+theorem flag_hole (players : List ShowdownPlayer) (winners : List Nat) :
+    (flagWinners players winners).map (·.hole) = players.map (·.hole) := by
+  apply List.ext_getElem?
+  intro j
+  simp only [List.getElem?_map, flag_getElem?]
+  cases players[j]? with
+  | none => rfl
+  | some pl => simp only [Option.map_some]; split <;> rfl
+
+theorem flag_hand (players : List ShowdownPlayer) (winners : List Nat) :
+    (flagWinners players winners).map (·.hand) = players.map (·.hand) := by
+  apply List.ext_getElem?
+  intro j
+  simp only [List.getElem?_map, flag_getElem?]
+  cases players[j]? with
+  | none => rfl
+  | some pl => simp only [Option.map_some]; split <;> rfl
+
+/-- attaining `strongest` is the same as being undercut by nobody -/
+theorem min_iff (board : List Card) (acc : SdAcc) (hI : Inv board acc) (pl : ShowdownPlayer)
+    (hm : pl ∈ acc.players) :
+    pl.hand = acc.strongest ↔ ∀ pl' ∈ acc.players, pl.hand ≤ pl'.hand := by
+  constructor
+  · intro h pl' hm'
+    rw [h]; exact hI.low pl' hm'
+  · intro h
+    obtain ⟨pl0, hm0, h0⟩ := hI.att (List.ne_nil_of_mem hm)
+    have h1 := h pl0 hm0
+    have h2 := hI.low pl hm
+    omega
+
+theorem flag_win (board : List Card) (acc : SdAcc) (hI : Inv board acc) :
+    (flagWinners acc.players acc.winners).map (·.win) = winnersOf (acc.players.map (·.hand)) := by
+  apply List.ext_getElem?
+  intro j
+  simp only [winnersOf, List.getElem?_map, flag_getElem?]
+  cases hj : acc.players[j]? with
+  | none => rfl
+  | some pl =>
+    simp only [Option.map_some]
+    congr 1
+    have hm : pl ∈ acc.players := List.mem_of_getElem? hj
+    have hw := (hI.evals pl hm).2.2
+    have hiff := min_iff board acc hI pl hm
+    have hwin := hI.win j
+    by_cases hc : j ∈ acc.winners
+    · have hc' : acc.winners.contains j = true := by simpa using hc
+      simp only [hc', if_true]
+      symm
+      rw [List.all_eq_true]
+      intro h' hh'
+      obtain ⟨pl', hm', rfl⟩ := List.mem_map.mp hh'
+      obtain ⟨pl2, hj2, hs2⟩ := hwin.mp hc
+      rw [hj] at hj2
+      cases hj2
+      simpa using hiff.mp hs2 pl' hm'
+    · have hc' : acc.winners.contains j = false := by simpa using hc
+      simp only [hc', Bool.false_eq_true, if_false, hw]
+      symm
+      rw [Bool.eq_false_iff]
+      intro hall
+      rw [List.all_eq_true] at hall
+      apply hc
+      apply hwin.mpr
+      refine ⟨pl, hj, hiff.mpr ?_⟩
+      intro pl' hm'
+      simpa using hall pl'.hand (List.mem_map.mpr ⟨pl', hm', rfl⟩)
 
 /-- No showdown is produced exactly when some player's hole card lies on the board. -/
 theorem C03_none_iff {W : Type} (board : List Card) (ps : List Combo) (prob : W) (h : WfTable board ps) :
     showdownNew ps board prob = .ok none ↔ ∃ p ∈ ps, collides board p = true := by
-  sorry
+  constructor
+  · intro hs
+    apply Decidable.byContradiction
+    intro hne
+    have hno : ∀ p ∈ ps, collides board p = false := by
+      intro p hp
+      cases hcp : collides board p with
+      | false => rfl
+      | true => exact absurd ⟨p, hp, hcp⟩ hne
+    obtain ⟨acc, hl, _, _⟩ := sdLoop_ok board h.board_len h.board_nodup h.board_valid ps 0 _
+      (inv_init board) rfl h.holes hno
+    simp only [showdownNew, hl] at hs
+    cases hs
+  · intro hex
+    have := sdLoop_none board h.board_len h.board_nodup h.board_valid ps 0 _
+      (inv_init board) rfl h.holes hex
+    simp only [showdownNew, this]
 
 /-- Otherwise a showdown is produced; it lists the players in input order, each with the evaluation of
 that player's own seven cards; the winners are exactly the players whose index no other player
@@ -49,12 +337,80 @@ theorem C03_some {W : Type} (board : List Card) (ps : List Combo) (prob : W) (h 
       ∧ sd.players.map (·.win) = winnersOf (sd.players.map (·.hand))
       ∧ (ps.length ≤ 255 → ∀ dbg, winnerLen sd dbg = .ok (sd.players.countP (·.win)))
       ∧ (ps ≠ [] → 1 ≤ sd.players.countP (·.win)) := by
-  sorry
+  obtain ⟨acc, hl, hI, hm⟩ := sdLoop_ok board h.board_len h.board_nodup h.board_valid ps 0 _
+    (inv_init board) rfl h.holes hno
+  simp only [List.map_nil, List.nil_append] at hm
+  refine ⟨{ board := board, players := flagWinners acc.players acc.winners, prob := prob }, ?_, rfl, rfl,
+    ?_, ?_, ?_, ?_, ?_⟩
+  · simp only [showdownNew, hl]
+  · simp only [flag_hole, hm]
+  · intro pl hpl
+    simp only at hpl
+    obtain ⟨j, hj⟩ := List.mem_iff_getElem?.mp hpl
+    rw [flag_getElem?] at hj
+    cases hj0 : acc.players[j]? with
+    | none => rw [hj0] at hj; cases hj
+    | some pl0 =>
+      rw [hj0] at hj
+      simp only [Option.map_some, Option.some.injEq] at hj
+      have hev := hI.evals pl0 (List.mem_of_getElem? hj0)
+      subst hj
+      split
+      · exact ⟨hev.1, hev.2.1⟩
+      · exact ⟨hev.1, hev.2.1⟩
+  · simp only [flag_hand]
+    exact flag_win board acc hI
+  · intro hlen dbg
+    have h1 : (flagWinners acc.players acc.winners).countP (·.win) ≤ 255 := by
+      have := List.countP_le_length (p := (·.win)) (l := flagWinners acc.players acc.winners)
+      rw [flag_length] at this
+      have h2 : acc.players.length = ps.length := by
+        have := congrArg List.length hm
+        simpa using this
+      omega
+    simp only [winnerLen, h1, if_true]
+  · intro hne
+    simp only
+    rw [List.one_le_countP_iff]
+    have hne' : acc.players ≠ [] := by
+      intro h0
+      rw [h0] at hm
+      exact hne hm.symm
+    obtain ⟨pl, hpl, hs⟩ := hI.att hne'
+    obtain ⟨j, hj⟩ := List.mem_iff_getElem?.mp hpl
+    have hjw : acc.winners.contains j = true := by
+      simpa using (hI.win j).mpr ⟨pl, hj, hs⟩
+    refine ⟨{ pl with win := true }, ?_, rfl⟩
+    apply List.mem_iff_getElem?.mpr
+    refine ⟨j, ?_⟩
+    rw [flag_getElem?, hj]
+    simp only [Option.map_some, hjw, if_true]
 
 /-- in particular: a flagged player's class is minimal, an unflagged player's is not -/
 theorem C03_winner_iff {W : Type} (board : List Card) (ps : List Combo) (prob : W) (h : WfTable board ps)
     (sd : Showdown W) (hsd : showdownNew ps board prob = .ok (some sd)) :
     ∀ pl ∈ sd.players, (pl.win = true ↔ ∀ pl' ∈ sd.players, pl.hand ≤ pl'.hand) := by
-  sorry
+  have hno : ∀ p ∈ ps, collides board p = false := by
+    intro p hp
+    cases hcp : collides board p with
+    | false => rfl
+    | true =>
+      have := (C03_none_iff board ps prob h).mpr ⟨p, hp, hcp⟩
+      rw [this] at hsd
+      cases hsd
+  obtain ⟨sd', hsd', _, _, _, _, hwin, _, _⟩ := C03_some board ps prob h hno
+  rw [hsd] at hsd'
+  cases hsd'
+  intro pl hpl
+  obtain ⟨j, hj⟩ := List.mem_iff_getElem?.mp hpl
+  have := congrArg (·[j]?) hwin
+  simp only [winnersOf, List.getElem?_map, hj, Option.map_some, Option.some.injEq] at this
+  rw [this, List.all_eq_true]
+  constructor
+  · intro hall pl' hm'
+    simpa using hall pl'.hand (List.mem_map.mpr ⟨pl', hm', rfl⟩)
+  · intro hall h' hh'
+    obtain ⟨pl', hm', rfl⟩ := List.mem_map.mp hh'
+    simpa using hall pl' hm'
 
 end EspadaVerif.C03
